@@ -14,6 +14,7 @@ def cell(sym, name, dom):
     Od<k> None | int in [0,k)
     M    None | int | str(len<=1)
     S    str(len<=1)
+    X    one of 12 concrete representatives across all type rungs (None, bool, int, float, Decimal, bytes, str, date, datetime, tuple)
     """
     if dom == 'I':
         return sym.int(name)
@@ -41,6 +42,9 @@ def cell(sym, name, dom):
         if k == 1:
             return sym.int(name, 0, d - 1)
         return sym.pick(name, ['a', 'b'])
+    if dom == 'X':
+        # cross-type representatives: every rung of the ordering ladder, with ==-equal values of different types
+        return sym.pick(name, XREPS)
     raise ValueError(dom)
 
 
@@ -51,6 +55,9 @@ def nrows(sym, name, N, exact=None):
         return exact
     return sym.choice(name, N + 1)
 
+
+XREPS = [None, False, 1, 1.0, 1.5, Decimal('1'), Decimal('2'), b'a', 'a', datetime.date(2020, 1, 1),
+         datetime.datetime(2020, 1, 1), (1, 'a')]
 
 # concrete representatives for types CrossHair cannot make symbolic
 REPS = {
